@@ -22,7 +22,7 @@ from uberjob.progress import NullProgressObserver, Progress, ProgressObserver
 
 GEN = ["Engine", "Observer"]
 ASSUMPTIONS = ["calls end normally or with an Exception (a BaseException raised by a call is reported by the engine but not to the observer)",
-               "observer methods themselves do not raise (except that a member of a composite may fail to be entered: the members already entered must then be exited)"]
+               "observer methods themselves do not raise (except that a member of a composite may fail to be entered, or raise while being left: every member that was entered must still be exited exactly once)"]
 
 
 def _tp_extra():
@@ -159,6 +159,7 @@ def one_case(rng, ctx, with_registry, mode="prim", op_switch_p=0.05, join_shape=
             "transform_physical": tp is not None}
     if with_registry:
         env = ce.Env()
+        env.soft_only = True       # C15 speaks of calls ending normally or with an Exception
         spec = ce.gen_cache_spec(rng, nmax=8)
         b = ce.build_cache(spec, env)
         for nd in spec["nodes"]:
@@ -354,6 +355,57 @@ def composite_enter_cases(ctx, replay=None):
     return {"violations": viol, "coverage": {"composite_enter_failure_cases": done}}
 
 
+class ExitFails(Exception):
+    pass
+
+
+class FailingExitObs(RecObs):
+    def __exit__(self, *a):
+        super().__exit__(*a)
+        raise ExitFails("this observer fails while being left (flushing its output, say)")
+
+
+def composite_exit_cases(ctx, replay=None):
+    """Composite observers one of whose members raises from `__exit__`: every member - before and behind the failing one, in
+    flat and nested composites, after successful and after failing runs - must still be exited exactly once, after everything
+    else it was told."""
+    from uberjob.progress import composite_progress
+    rng = random.Random(ctx.seed * 37 + 19)
+    viol, done = [], 0
+    shapes = [replay["composite_case"]] if replay else [(k, p, nest, fail) for k in (2, 3, 4) for p in range(k) for nest in (False, True)
+                                                        for fail in (False, True)]
+    for k, p, nest, fail in shapes:
+        members = [FailingExitObs() if i == p else RecObs() for i in range(k)]
+        progs = [OneObsProgress(o) for o in members]
+        if nest and k >= 3:
+            prog = composite_progress(progs[0], composite_progress(*progs[1:]))
+        else:
+            prog = composite_progress(*progs)
+        rec = plans.Rec()
+        spec = plans.gen_spec(rng, nmax=4)
+        calls = [nd["id"] for nd in spec["nodes"] if nd["kind"] == "call"]
+        failing = {calls[0]: "ValueError"} if fail and calls else {}
+        plan, nodes, _ = plans.build(spec, rec, failing)
+        try:
+            uberjob.run(plan, output=[nodes[i] for i in sorted(nodes)], progress=prog, max_workers=2)
+        except BaseException:      # noqa: BLE001 - which exception the caller sees is not judged here
+            pass
+        done += 1
+        case = [k, p, bool(nest), bool(fail)]
+        for i, o in enumerate(members):
+            n_enter = sum(1 for e in o.ev if e == ("enter",))
+            n_exit = sum(1 for e in o.ev if e == ("exit",))
+            if n_enter != 1 or n_exit != 1 or o.ev[0] != ("enter",) or o.ev[-1] != ("exit",):
+                viol.append({"property": "C15", "what": f"composite of {k} observers{' (nested)' if nest else ''}, member #{p} raises from "
+                             f"__exit__ after a {'failing' if failing else 'successful'} run: member #{i} was entered {n_enter}x and exited "
+                             f"{n_exit}x (its last notifications: {o.ev[-3:]})",
+                             "replay_fn": "composite_exit", "composite_case": case})
+                break
+        if viol:
+            break
+    return {"violations": viol, "coverage": {"composite_exit_failure_cases": done}}
+
+
 class FreshObsProgress(Progress):
     """a Progress that hands out a NEW recording observer for every run (as the bundled ones do)"""
 
@@ -419,6 +471,10 @@ def explore(ctx):
         res["coverage"].update(c["coverage"])
     if not res["violations"]:
         c = composite_enter_cases(ctx)
+        res["violations"] += c["violations"]
+        res["coverage"].update(c["coverage"])
+    if not res["violations"]:
+        c = composite_exit_cases(ctx)
         res["violations"] += c["violations"]
         res["coverage"].update(c["coverage"])
     return res
@@ -501,6 +557,11 @@ def search(ctx, broken):
         found += v
         if found:
             break
+    if not found:
+        for fn in (composite_reuse_cases, composite_enter_cases, composite_exit_cases):
+            found += fn(ctx)["violations"]
+            if found:
+                break
     return found
 
 
@@ -508,6 +569,9 @@ def replay(ctx, payload):
     w = payload.get("witness", payload)
     if w.get("replay_fn") == "composite_enter":
         r = composite_enter_cases(ctx, replay=w)
+        return r["violations"][0]["what"] if r["violations"] else None
+    if w.get("replay_fn") == "composite_exit":
+        r = composite_exit_cases(ctx, replay=w)
         return r["violations"][0]["what"] if r["violations"] else None
     info = w.get("case")
     if not info or info.get("registry"):
